@@ -45,7 +45,7 @@ PROPS = {
              gentable=('const_staking_gt1', 'const_migration_gt1', 'const_staking_mig', 'const_migration_mig', 'overflow_checks_all')),
     'C13': P('vesting: cumulative formula, monotone, bounded, ends at 100%; schedule acceptance',
              eps=('setSchedule1', 'setSchedule2', 'claim'), cats=('status', 'bal', 'panic', 'wrap'),
-             views=('schedule', 'claimable', 'totalClaimable', 'claimedBal'), coq=('Proofs/Vesting.v',),
+             views=('schedule', 'claimable', 'totalClaimable', 'claimedBal'), coq=('Proofs/Vesting.v', 'Proofs/VestedCover.v', 'Proofs/SetupVested.v'),
              gentable=('const_max_pct_gt1', 'const_max_pct_gt2', 'const_max_milestones', 'const_max_round_diff')),
     'C14': P('NFT draw without replacement, fee paid once and exactly, SFT kinds, fees reconcile',
              eps=('confirmNft', 'extra', 'claim', 'claimPayment', 'setNftCost', 'blacklist'), cats=('status', 'bal', 'ret'),
